@@ -34,6 +34,7 @@ from ..common import dumps, MachineryError
 from .. import c15lib as L
 
 MODES = ['sample', 'interp1', 'interp2', 'interp3', 'resample', 'deform']
+AFFINES = [[1000, -14], [-300.5, -12]]          # x -> offset + 2^k * x (exact in float64, not representable in float32)
 
 
 # ------------------------------------------------------------------ executing one planned call
@@ -75,8 +76,9 @@ def exec_interp(cvs, f, schemes, xs, pts, conc, D):
         ev = {'kind': 'interp', 'cvs': cvs, 'f': f, 'schemes': schemes, 'xs': xs, 'obs': [], 'err': ''}
         farr = L.np_values(f, shape, dt)
     try:
-        itp = L.make_interpolator(farr, L.cvs_float(cvs), schemes, conc['which'])
-        res = L.call_interp(itp, conc['form'], xs, pts, ndim, farr.dtype)
+        aff = L.aff_of(conc)
+        itp = L.make_interpolator(farr, L.cvs_float(cvs, aff), schemes, conc['which'])
+        res = L.call_interp(itp, conc['form'], xs, pts, ndim, farr.dtype, aff)
         if len(res) != len(xs):
             ev['err'] = 'ShapeError'
             ev['_errmsg'] = '%d results for %d points' % (len(res), len(xs))
@@ -252,6 +254,12 @@ def signature(ev, plan, clause, k=0, failing=()):
     sig = {'api': api, 'dtype': dtc, 'scheme': scl, 'ndim': nd, 'clause': clause}
     if plan['k'] == 'interp':
         sig['form'] = conc['form']
+        sig['coords'] = 'far/fine' if conc.get('affine') else 'plain'
+        if np.dtype(conc['dtype']) in (np.dtype('float32'), np.dtype('complex64')):
+            sig['dtype'] = dtc + '32'
+    if plan['k'] == 'resample':
+        cfg = plan.get('shapes')
+        sig['shapes'] = cfg or '-'
     return sig
 
 
@@ -319,9 +327,13 @@ def plans_interp(cfg, qs, rot, thorough):
             combos = [(whichs[(i + j) % len(whichs)], form) for j, form in enumerate(L.FORMS)]
             combos = [combos[i % 5], combos[(i + 2) % 5], combos[(i + 4) % 5]] if n_dt == 0 else [combos[(i + 1) % 5]]
         i += 1
-        for which, form in combos:
-            out.append(({'k': 'interp', 'cvs': cvs, 'f': f, 'schemes': schemes, 'xs': xs, 'pts': pts, 'D': D,
-                         'conc': {'which': which, 'form': form, 'dtype': dt}}, exp, defined))
+        narrow = np.dtype(dt) in (np.dtype('float32'), np.dtype('complex64'))
+        for ci, (which, form) in enumerate(combos):
+            conc = {'which': which, 'form': form, 'dtype': dt}
+            # the same abstract case far from the origin with fine cells: coordinates need > 24 significant bits, points are float64
+            if (narrow and (not thorough or ci % 3)) or (not narrow and (ci + rot) % 3 == 2):
+                conc['affine'] = AFFINES[(rot + ci) % len(AFFINES)]
+            out.append(({'k': 'interp', 'cvs': cvs, 'f': f, 'schemes': schemes, 'xs': xs, 'pts': pts, 'D': D, 'conc': conc}, exp, defined))
     # a mesh grid whose first axis holds a single point (the other axes keep all their points)
     j1 = rot % len(pts[0])
     pts1 = [[pts[0][j1]]] + pts[1:]
@@ -365,10 +377,11 @@ def plans_resample(case, rot, thorough):
     D = L.lcm_den(exp, L.lcm_den(cfg['f']))
     real = L.is_real_vals(cfg['f'])
     dts = (['float64'] + (['float32'] if D <= 256 else [])) if real else (['complex128'] + (['complex64'] if D <= 256 else []))
-    return [({'k': 'resample', 'cfg': cfg, 'D': D, 'schemes': cfg['schemes'],
+    same_shape = [s_['n'] for s_ in cfg['src']] == [t_['n'] for t_ in cfg['tgt']]
+    return [({'k': 'resample', 'cfg': cfg, 'D': D, 'schemes': cfg['schemes'], 'shapes': 'equal' if same_shape else 'different',
               'conc': {'api': 'Resampling', 'dtype': dt, 'interp_as': ias, 'inplace': ip}}, exp, None)
             for j, dt in enumerate(dts) for ias in (['str', 'list'] if thorough else [['str', 'list'][rot % 2]])
-            for ip in ([False, True] if thorough else [bool((rot + j) % 2)])]
+            for ip in ([False, True] if (thorough or same_shape) else [bool((rot + j) % 2)])]
 
 
 def plans_deform(case, rot, thorough):
@@ -429,7 +442,7 @@ def replay_task(args):
 
 
 def slim(plan):
-    return {k: v for k, v in plan.items() if k in ('k', 'conc', 'pclass', 'schemes', 'D', 'fnclass')}
+    return {k: v for k, v in plan.items() if k in ('k', 'conc', 'pclass', 'schemes', 'D', 'fnclass', 'shapes')}
 
 
 # ------------------------------------------------------------------ seeded random driver (code -> spec)
@@ -501,8 +514,10 @@ def random_plans(rnd, count):
                 continue
             dt = ('complex64' if cpx else 'float32') if f32 else ('complex128' if cpx else 'float64')
             jq = lambda seq: [[_q(v) for v in p] for p in seq]
-            plans.append({'k': 'interp', 'cvs': jq(cvs), 'f': f, 'schemes': schemes, 'xs': jq(xs), 'pts': jq(pts), 'D': den,
-                          'conc': {'which': rnd.choice(whichs), 'form': form, 'dtype': dt}})
+            conc = {'which': rnd.choice(whichs), 'form': form, 'dtype': dt}
+            if rnd.random() < 0.4:
+                conc['affine'] = [rnd.choice([1000, -300.5, 4096.25]), rnd.choice([-8, -12, -14])]
+            plans.append({'k': 'interp', 'cvs': jq(cvs), 'f': f, 'schemes': schemes, 'xs': jq(xs), 'pts': jq(pts), 'D': den, 'conc': conc})
         else:
             ndim = rnd.choice([1, 2, 2, 3])
             cvs = []
@@ -594,6 +609,9 @@ def run(ctx):
                 'form x dtype (interpolation); distinct = hash of (abstract case batch, concretisation); non-trivial = expected values are '
                 'not all equal / zero')
     ctx.assumptions += [
+        'interpolation cases are also replayed after an exact affine change of coordinates x -> offset + 2^k x (offset 1000 / -300.5, k = -14 / -12) '
+        'applied to grid and points together (law checked by TLC on small numbers): the coordinates then need > 24 significant bits, the points '
+        'are passed as float64, values of type float32 / complex64 must still reproduce nodes, ties and blends exactly',
         'grids, data and points are dyadic (exactly representable), so nearest ties and node hits are exact; float32 runs are restricted '
         'to cases whose result lattice has denominator <= 256',
         'linear / mixed interpolation outside the hull is compared only within one edge step (the documented implicit zero node); '
